@@ -487,6 +487,9 @@ def gen_entry(rng, h, kind):
         for _ in range(2):
             ts = list(times)
             rng.shuffle(ts)
+            if rng.random() < 0.25:
+                # replicate measurements: one time requested twice
+                ts.insert(rng.randint(0, len(ts)), rng.choice(ts))
             a = {'times': ts, 'n_samples': rng.choice([1, 2, ns_big])}
             if kind == 'pred':
                 a['parameters'] = _vals(rng, n_mech) + _vals(
